@@ -40,6 +40,13 @@
 #define FILL 0          /* downloads: bytes in the last segment (concrete, keeps every command byte concrete); 0: symbolic */
 #endif
 #define SCONC ((NSEG == 0) ? FILL : (7 * (NSEG - 1) + FILL))
+#ifndef AK
+#define AK {0}
+#define AKN 0
+#endif
+#ifndef BS2
+#define BS2 BS
+#endif
 #define SMIN ((NSEG == 0) ? 1 : ((NSEG == 1) ? 5 : (7 * (NSEG - 1) + 1)))
 #define SMAX ((NSEG == 0) ? 4 : (7 * NSEG))
 #ifndef UBL
@@ -93,12 +100,20 @@ void harness(void)
     od_defaults();
     app.b = ND_U8(); app.w = ND_U16(); app.l = ND_U32(); app.nl = ND_U32();
     ND_BUF(app.dom, D + 4);
+#if (FILL != 0) && (TGT == 7) && (XF == 2 || XF == 4)
+    slen = SCONC;                                /* concrete object size       */
+#else
     slen = ND_RANGE(1, OD_STR_SIZE);
+#endif
     for (i = 0; i < OD_STR_SIZE + 4; i++) {
         uint8_t c = (uint8_t)(ND_U8() | 1u);
         app.str[i] = (i < slen) ? c : 0;
     }
+#if (FILL != 0) && (TGT == 6) && (XF == 2 || XF == 4)
+    od_dom.Size = SCONC;                         /* concrete object size       */
+#else
     od_dom.Size = ND_RANGE(1, D);                /* domain size symbolic       */
+#endif
     node_boot();
 
 #if PRE != 0
@@ -221,7 +236,6 @@ void harness(void)
         }
         CHECK(s->Obj == 0, "server idle after upload");
         for (i = 0; i < D + 4; i++) { CHECK(app.dom[i] == dom0[i], "object unchanged by upload"); }
-        COVER(S % 7 == 0 || S <= 4, "last segment full or expedited");
     }
 #elif XF == 3
     /* ---------- block download to the domain ---------------------------- */
@@ -276,15 +290,21 @@ void harness(void)
     }
 #else
     /* ---------- block upload --------------------------------------------- */
+    /* acknowledge pattern concrete (enumerated by the driver): AK = {k1,k2,..}
+     * partial acknowledges for the first AKN blocks (k_i = number of segments
+     * acknowledged), every later block is acknowledged completely.  BS is the
+     * block size of the initiate, BS2 the one announced with every complete
+     * acknowledge.  Object size (within its class), contents symbolic.      */
     {
         uint32_t S = (TGT == 7) ? slen : od_dom.Size;
         uint8_t *src = (TGT == 7) ? app.str : app.dom;
-        uint8_t  bs = BS;                            /* requested block size      */
+        static const uint8_t ak[] = AK;
+        uint8_t  bs = BS;
         uint32_t cnt = 0;                            /* bytes accepted by client  */
         uint32_t blk;
         uint8_t  fin = 0;                            /* final segment accepted    */
-        uint8_t  allfull = 1;
         uint8_t  lastn = 0;
+        ASSUME(S >= SMIN && S <= SMAX);
         fz(); mux(); f[0] = 0xA0; f[4] = bs;
         req(); expect_one(); expect_mux();
         CHECK(R0.Data[0] == 0xC2 && get32(&R0) == S, "block upload initiate announces the object size");
@@ -297,9 +317,9 @@ void harness(void)
                 uint32_t k, q;
                 uint8_t  nbs;
                 CHECK(nseg >= 1 && nseg <= ebs, "block has between one and the requested number of segments");
-                k = ND_RANGE(0, SDO_N);                        /* client acknowledges a prefix   */
-                ASSUME(k <= nseg);
-                if (k < nseg) { allfull = 0; }
+                k = nseg;
+                if (blk < AKN) { k = ak[blk]; }
+                if (k > nseg) { k = nseg; }
                 for (q = 0; q < SDO_N; q++) {
                     if (q < nseg) {
                         CHECK(env_tx[q].Identifier == 0x580 + OD_NODEID, "segment on the response identifier");
@@ -322,11 +342,9 @@ void harness(void)
                         }
                     }
                 }
-                nbs = (uint8_t)ND_RANGE(1, 127);
-#ifdef KF_BLKSIZE_EXCL
-                /* known finding: a new block size in a PARTIAL acknowledge is ignored */
-                ASSUME((k == nseg) || (nbs == bs));
-#endif
+                /* block size: kept with a partial acknowledge (known finding F06
+                 * otherwise), BS2 announced with a complete one */
+                nbs = (k < nseg) ? bs : BS2;
                 fz(); f[0] = 0xA2; f[1] = (uint8_t)k; f[2] = nbs;
                 bs = nbs;
                 req();
@@ -336,16 +354,13 @@ void harness(void)
                 }
             }
         }
-        CHECK(fin || !allfull, "transfer completes when every block is acknowledged completely");
-        ASSUME(fin);                                 /* client behaviours finishing within UBL blocks */
+        CHECK(fin, "transfer completes");
         fz(); f[0] = 0xA1;
         req();
         CHECK(env_tx_n == 0, "end confirmation is not answered");
         CHECK(s->Obj == 0 && s->Blk.State == BLK_IDLE, "server idle after block upload");
         for (i = 0; i < D; i++) { if (i < S) { CHECK(got[i] == src[i], "assembled bytes equal the object"); } }
         for (i = 0; i < D + 4; i++) { CHECK(app.dom[i] == dom0[i], "object unchanged by upload"); }
-        COVER(!allfull, "partial acknowledge");
-        COVER(S % 7 == 0 || S <= 4, "last segment full");
     }
 #endif
     CHECK(env_fatal == 0, "no fatal error");
